@@ -36,7 +36,10 @@ META = {
         "'the same codec parameters' (fMP4 variants) is judged against the muxer's parameter timeline: the set reported in OnTracks must "
         "be one the muxer's Track.Codec held between the write of the first unit of the first part / segment of that track the client "
         "downloaded and the moment the client had the init (whichever came first); an older set (an init that did not follow a "
-        "parameter change) is C09:*:tracks:codec-parameters:*:stale-init; one pair in five has parameter changes of single sets, half of "
+        "parameter change) is C09:*:tracks:codec-parameters:*:stale-init - with the suffix :forced-segment-still-open (finding F27) "
+        "exactly when, in Low-Latency, the leading stream rotated during the write of the change and the write that closed that "
+        "segment had not completed when the client's init request started (VerifSnapshot after every write, completed-writes counter on "
+        "every request); one pair in five has parameter changes of single sets, half of "
         "them with the client attached after the changes",
         "AbsoluteTime is compared with the NTP written with the unit itself: the harness writes ntp = base + dts/rate for every unit, "
         "so this equals 'NTP of the first unit of the segment + DTS distance' for any anchor; tolerance 1 ms + 2 ticks (+0.32 ms LL)",
